@@ -1145,6 +1145,9 @@ class Live:
                 seeds = [seed(a) for a in arg]
                 src = iter(list(seeds)) if as_iter else list(seeds)
                 out = call(lt[0].upset_union if hk == 'upU' else lt[0].downset_union, src)
+                if not as_iter:
+                    core.scramble(src)   # the caller re-uses its seed list before it starts iterating
+                    rec.fault('caller_reuses_argument')
                 if len(seeds) != len({id(x) for x in seeds}):
                     rec.probe('seed_repeats')
                 if any(a is not b and (sl.omask(a.extent) & sl.omask(b.extent)) == sl.omask(a.extent)
